@@ -7,7 +7,14 @@ PROTOS = ['java', 'bedrock', 'legacy']
 
 
 def more(tier, seed, w, v, lay, tp):
-    return [], []
+    """auto-detect order: Minecraft.tla (32 subsets of variants x 7 entry points x what the server does on a variant it does not speak)"""
+    quick = tier != "thorough"
+    mc = [tlc_mc("Minecraft.tla", "MC_Minecraft.cfg", workers=4, name="c03_mc", coverage=False)]
+    b = f"{w}/beh_minecraft.ndjson"
+    mc.append(behaviours("Minecraft.tla", "Gen_Minecraft.cfg", b, "c03_gen"))
+    r = vh(["minecraft-behaviours", "--layouts", lay, "--in", b, "--reps", 1 if quick else 8, "--seed", seed], name="c03b")
+    v.add_report(r, "auto-detect behaviours")
+    return [r], mc
 
 
 def run(tier, seed):
